@@ -43,7 +43,7 @@ func init() {
 		Prop:    "C17",
 		Harness: []string{"c01_chain.go", "c16_keyid.go"},
 		Entries: []EntrySpec{
-			{Pkg: "biscuit", Func: "VerifC17Revocation", Quick: p("blocks", 1), Thorough: p("blocks", 2), Covers: []string{"done"}},
+			{Pkg: "biscuit", Func: "VerifC17Revocation", Quick: p("blocks", 4), Thorough: p("blocks", 6), Covers: []string{"done"}},
 		},
 		Assumptions: append([]string{"fresh randomness is modelled by assuming all drawn seeds pairwise distinct; distinctness of identifiers then follows from injectivity of PUB and SIG in the ideal model"}, chainAssume...),
 		Models:      []string{modelSig, modelCodec},
